@@ -173,8 +173,11 @@ class C12(Prop):
         return names.get(t)
 
     def gen_extra(self, ctx, bdir):
-        comm = open(os.path.join(E.REPO, "src/comm.c"), errors="replace").read()
-        back = open(os.path.join(E.REPO, "src/backend.c"), errors="replace").read()
+        def nocomment(t):      # comments are not part of any tie
+            t = re.sub(r"/\*.*?\*/", " ", t, flags=re.S)
+            return re.sub(r"//[^\n]*", " ", t)
+        comm = nocomment(open(os.path.join(E.REPO, "src/comm.c"), errors="replace").read())
+        back = nocomment(open(os.path.join(E.REPO, "src/backend.c"), errors="replace").read())
         out = []
         # (a) the rotating cursor of get_user_command: both update sites must exist and agree
         m0 = re.search(r"static char\s*\*\s*get_user_command \(\) \{(.*?)\n\}", comm, re.S)
@@ -254,7 +257,7 @@ class C12(Prop):
             raise X.TieBroken("guard:table growth", "cannot locate `new_max_users = max_users + N` / the fill loop in new_interactive()")
         out.append("/-- C (new_interactive): `int new_max_users = max_users + %s;` -/\ndef growBy : Nat := %s" % (m6[0], m6[0]))
         # (i) the space rule of get_user_data (PORT_TELNET): divisors of the two tests and of the space after a discard
-        m8 = re.search(r"text_space = \(MAX_TEXT - \(int\)ip->text_end - 1\) / (\d+);\s*/\*[^*]*\*/\s*if \(text_space < MAX_TEXT / (\d+)\)\s*\{"
+        m8 = re.search(r"text_space = \(MAX_TEXT - \(int\)ip->text_end - 1\) / (\d+);\s*if \(text_space < MAX_TEXT / (\d+)\)\s*\{"
                        r"\s*size_t len = ip->text_end - ip->text_start;\s*memmove \(ip->text, ip->text \+ ip->text_start, len \+ 1\);\s*"
                        r"ip->text_start = 0;\s*ip->text_end = len;\s*text_space = \(MAX_TEXT - ip->text_end - 1\) / (\d+);\s*"
                        r"if \(text_space < MAX_TEXT / (\d+)\)\s*\{[^{}]*ip->text_start = 0;\s*ip->text_end = 0;\s*text_space = MAX_TEXT / (\d+);",
@@ -264,6 +267,13 @@ class C12(Prop):
         out.append("/-- C (get_user_data): `text_space = (MAX_TEXT - text_end - 1) / %s` -/\ndef spaceDiv : Nat := %s" % (m8.group(1), m8.group(1)))
         out.append("/-- C (get_user_data): `if (text_space < MAX_TEXT / %s)` (both tests) -/\ndef compactDiv : Nat := %s" % (m8.group(2), m8.group(2)))
         out.append("/-- C (get_user_data): `text_space = MAX_TEXT / %s` after the discard -/\ndef discardSpaceDiv : Nat := %s" % (m8.group(5), m8.group(5)))
+        # (j) events per poll round
+        epo = nocomment(open(os.path.join(E.REPO, "lib/async/async_runtime_epoll.c"), errors="replace").read())
+        m9 = re.findall(r"#define MAX_EVENTS (\d+)", epo)
+        if len(m9) != 1 or not re.search(r"int max_epoll_events = \(max_events < MAX_EVENTS\) \? max_events : MAX_EVENTS;\s*"
+                                         r"int result = epoll_wait\(runtime->epoll_fd, epoll_events, max_epoll_events, timeout_ms\);", epo):
+            raise X.TieBroken("guard:events per round", "cannot locate MAX_EVENTS / the epoll_wait call in lib/async/async_runtime_epoll.c")
+        out.append("/-- C (async_runtime_epoll.c): `#define MAX_EVENTS %s` - events handed out per poll round -/\ndef maxEvents : Nat := %s" % (m9[0], m9[0]))
         # (g) the slot search of new_interactive starts behind the console slot; a new interactive holds no flag
         m7 = re.findall(r"for \(i = (\d+); i < max_users; i\+\+\)\s*if \(!all_users\[i\]\)\s*break;", comm)
         if len(m7) != 1 or not re.search(r"master_ob->interactive->iflags = 0;", comm):
@@ -296,7 +306,10 @@ class C12(Prop):
         return "\n".join(out)
 
     def prepare(self, ctx):
-        self.exe = E.compile_harness("c12", [os.path.join(E.VERIF, "harness/c12/c12.c")])
+        epo = open(os.path.join(E.REPO, "lib/async/async_runtime_epoll.c"), errors="replace").read()
+        m = re.search(r"#define MAX_EVENTS (\d+)", epo)
+        self.exe = E.compile_harness("c12", [os.path.join(E.VERIF, "harness/c12/c12.c")],
+                                     extra=("-DC12_MAX_EVENTS=%s" % (m.group(1) if m else "64"),))
         self.conf = E.make_mudlib(ctx.rundir, master="/c12/master.c")
 
     def run_impl(self, ctx, cases):
@@ -406,6 +419,8 @@ class C12(Prop):
             s, nx = self.flood(1, nx, 30)
             fl += [s, "send u2 x%d~" % c, "cycle"]
         mk("long-typeahead-below-discard", conns(3) + fl + ["send u3 z~"] + ["cycle"] * 6)
+        # more users than a signed char counts: every one of them holds a command in the same cycle
+        mk("many-users-140", ["conn"] * 140 + ["cycle"] * 141 + ["send u%d a~" % i for i in range(1, 141)] + ["cycle"] * 3)
         mk("kick-waiting-user", ["script u3 =k kick,u1;kick,u2", "script u2 =s kick,u2;gc"] + conns(3) +
            ["send u1 a~b~", "send u2 a~b~", "send u3 k~c~", "cycle", "cycle", "conn", "cycle", "send u4 s~", "cycle", "cycle"])
         mk("self-kick-and-drop", ["script u2 =s kick,u2;ecmd,u1,m1", "script u1 =d drop,u1;ecmd,u1,m1;gc", "script u1 =m1 it"] +
